@@ -26,6 +26,7 @@ package gocql
 
 import (
 	"bufio"
+	"bytes"
 	"context"
 	"crypto/tls"
 	"errors"
@@ -1530,6 +1531,12 @@ func (c *Conn) executeQuery(ctx context.Context, qry *Query) *Iter {
 			// the statement was not sent as a prepared one, there is nothing to
 			// prepare again: executing it again would loop for as long as the
 			// server keeps answering this way
+			return &Iter{err: x, framer: framer}
+		}
+		if !bytes.Equal(x.StatementId, info.id) {
+			// the server names an id this request did not carry: there is
+			// nothing to prepare again, the same EXECUTE would be sent for as
+			// long as the server keeps answering this way
 			return &Iter{err: x, framer: framer}
 		}
 		stmtCacheKey := c.session.stmtsLRU.keyFor(c.host.HostID(), c.currentKeyspace, qry.stmt)
